@@ -69,6 +69,15 @@ pub fn c_bin(k: u16, a: CVal, b: CVal) -> CVal {
         Interp::Builtin("bvor") => a.0 | b.0,
         Interp::Builtin("bvand") => a.0 & b.0,
         Interp::Builtin(o) => panic!("unknown builtin {o}"),
+        Interp::Template(_) => panic!("templates are NRA only"),
+        Interp::Ac(n) => {
+            let c = (2 * (n / 3) + 1) as u16;
+            match n % 3 {
+                0 => a.0.wrapping_add(b.0).wrapping_add(c),
+                1 => a.0.wrapping_mul(b.0).wrapping_mul(c),
+                _ => a.0 ^ b.0 ^ c,
+            }
+        }
         Interp::Uf(_) => CMODEL.with(|m| {
             m.borrow().bin.get(&(k, a.0, b.0)).copied().unwrap_or_else(|| mix(((k as u64) << 40) | ((a.0 as u64) << 20) | b.0 as u64 | 1 << 60))
         }),
@@ -163,6 +172,7 @@ pub fn install_model(roots: &[Id], model: &BTreeMap<String, String>) -> bool {
             }
             Node::Bin(k, a, b) => {
                 if let Interp::Uf(_) = table::interp_bin(k, Theory::Ufbv) {
+                    // (templates do not occur in UFBV)
                     let (Some(av), Some(bv)) = (val(a), val(b)) else { return false };
                     cm.bin.insert((k, av, bv), v);
                 }
